@@ -154,8 +154,14 @@ Definition marker_as_deletion (hv : list (@vrec (option bytes))) : list (@vrec (
 Definition limited (limit : Z) (l : list okv) : list okv * bool :=
   if (0 <? limit)%Z then (firstn (Z.to_nat limit) l, (limit <? Z.of_nat (length l))%Z) else (l, false).
 
-(* does response `q` equal what the snapshot of version store hv prescribes? *)
-Definition read_meets (hv : list (@vrec (option bytes))) (cur : N) (q : c03_read) : bool :=
+(* range membership as the implementation decides it: by the order of the encoded bounds (equal to
+   in_range when both bounds are in the documented alphabet — C10_range_bounds) *)
+Definition in_range_enc (a b : bytes) (l : list okv) : list okv :=
+  filter (fun x => bleb (encode a 0) (encode (okv_key x) (okv_rev x)) && bltb (encode (okv_key x) (okv_rev x)) (encode b 0)) l.
+
+(* does response `q` equal what the snapshot of version store hv prescribes?  `rng` = range restriction *)
+Definition read_meets (rng : bytes -> bytes -> list okv -> list okv)
+    (hv : list (@vrec (option bytes))) (cur : N) (q : c03_read) : bool :=
   match q with
   | QGet k rev out =>
       match out with
@@ -165,15 +171,22 @@ Definition read_meets (hv : list (@vrec (option bytes))) (cur : N) (q : c03_read
   | QList a b rev limit out =>
       match out with
       | LResp _ kvs more =>
-          let '(ekvs, emore) := limited limit (in_range a b (snapshot_spec hv (eff_rev rev cur))) in
+          let '(ekvs, emore) := limited limit (rng a b (snapshot_spec hv (eff_rev rev cur))) in
           list_eqb okv_eqb kvs ekvs && Bool.eqb more emore
       | _ => false
       end
   | QCount a b out =>
       match out with
-      | CResp _ n => n =? N.of_nat (length (in_range a b (snapshot_spec hv cur)))
+      | CResp _ n => n =? N.of_nat (length (rng a b (snapshot_spec hv cur)))
       | _ => false
       end
+  end.
+
+Definition bounds_alpha (q : c03_read) : bool :=
+  match q with
+  | QGet _ _ _ => true
+  | QList a b _ _ _ => alphab a && alphab b
+  | QCount a b _ => alphab a && alphab b
   end.
 
 (* reads the property speaks about: a < b, revision already readable and not below the floor, limit in 0..2^63-2 *)
@@ -187,8 +200,10 @@ Definition in_scope (compat : bool) (cur floor : N) (q : c03_read) : bool :=
 
 Definition read_verdict (hv : list (@vrec (option bytes))) (compat : bool) (cur floor : N) (q : c03_read) : option N :=
   if negb (in_scope compat cur floor q) then None
-  else if read_meets hv cur q then None
-  else if read_meets (marker_as_deletion hv) cur q then Some 1     (* finding C03-F1 *)
+  else if read_meets in_range hv cur q then None
+  else if negb (bounds_alpha q) && read_meets in_range_enc hv cur q then Some 2   (* finding C03-F2 *)
+  else if read_meets in_range (marker_as_deletion hv) cur q then Some 1            (* finding C03-F1 *)
+  else if negb (bounds_alpha q) && read_meets in_range_enc (marker_as_deletion hv) cur q then Some 2
   else Some 0.
 
 Definition worst (x y : option N) : option N :=
